@@ -708,9 +708,17 @@ def auto_ops(c, rules, prefix):
                         if depth == 0:
                             break
                     j -= 1
-                if j < 0 or st[j] != '(' or (j > 0 and re.fullmatch(r'[A-Za-z_][A-Za-z0-9_]*', st[j - 1])):
+                if j < 0 or st[j] != '(':
                     continue
-                start = j
+                if j > 0 and re.fullmatch(r'[A-Za-z_][A-Za-z0-9_]*', st[j - 1]):
+                    # B is a call `path.to.method(args)`: the receiver path (identifiers joined by `.`) belongs to B
+                    start = j - 1
+                    while start >= 2 and st[start - 1] == '.' and re.fullmatch(r'[A-Za-z_][A-Za-z0-9_]*', st[start - 2]):
+                        start -= 2
+                    if start >= 1 and (st[start - 1] in ('.', ')', ']', '?', '::', '&', '!', '*') or re.fullmatch(r'[A-Za-z_][A-Za-z0-9_]*', st[start - 1])):
+                        continue
+                else:
+                    start = j
             elif re.fullmatch(r'[A-Za-z_][A-Za-z0-9_]*', st[k - 1]) and _free_standing(st, k - 1):
                 start = k - 1
             else:
